@@ -397,6 +397,8 @@ class SolverWrapper:
             ub (float): The upper bound of the continuous variable.
             name (str): The name of the constraint.
         """
+        # (the bounds are coefficients below: the solver takes Python numbers only, not np.longdouble, Fraction or Decimal values)
+        lb, ub = float(lb), float(ub)
         self.add_constraint(product_var <= ub * binary_var, name=name + "_a")
         self.add_constraint(product_var >= lb * binary_var, name=name + "_b")
         self.add_constraint(product_var <= continuous_var - lb * (1 - binary_var), name=name + "_c")
